@@ -70,7 +70,7 @@ def explore(check, obs, configs, limit=None, invariants=('NoFault', 'NoForeignSi
 
     def gen(item):
         label, consts = item
-        return label, consts, check.witnesses(label, consts, emit='EmitOps', invariants=list(invariants),
+        return label, consts, check.witnesses(label, consts, emit='EmitOps', invariants=list(invariants) + (['NoStuck'] if check.tier == 'thorough' else []),
                                               coverage=check.tier == 'thorough', limit=limit)
     with ThreadPoolExecutor(3) as ex:          # the TLC runs of the configurations overlap
         generated = list(ex.map(gen, configs))
@@ -84,8 +84,42 @@ def explore(check, obs, configs, limit=None, invariants=('NoFault', 'NoForeignSi
 def judge(check, obs, runs):
     """TLC validates the recorded traces against the property monitor: the verdict"""
     for idx, clause, pos in check.validate(obs, [r[1] for r in runs]):
-        check.report(clause, runs[idx][0], runs[idx][1], pos, extra={'NRoots': runs[idx][2]})
+        check.report(clause, runs[idx][0], runs[idx][1], pos, extra=run_extra(runs[idx]))
     check.samples = [{'program': r[0], 'trace': r[1][:14]} for r in runs[:: max(1, len(runs) // 3)][:3]]
+
+
+def run_extra(run):
+    """what a replay needs besides the program: number of roots and, for random programs, the world"""
+    return {'NRoots': run[2], 'world': run[3]} if len(run) > 3 else {'NRoots': run[2]}
+
+
+def random_runs(check, n=None, conform=False):
+    """random programs over the WHOLE vocabulary of the operational spec (storm.usim_program, bounds storm.BIG),
+    executed on the real code; optionally TLC checks that every recorded trace is a behaviour of USim (USimT)"""
+    import random
+    import storm
+    if n is None:
+        n = 3000 if check.tier == 'quick' else 40000
+    progs = [storm.usim_program(random.Random('%d/%d' % (check.seed, i)))['roots'] for i in range(n)]
+    world = world_args(storm.BIG)
+    WORLD.clear()
+    WORLD.update(world)
+    try:
+        traces = [r[0] for r in run_many(progs, storm.BIG['NRoots'])]
+    finally:
+        WORLD.clear()
+    info = {'programs': n, 'bounds': {k: (sorted(v) if isinstance(v, (set, frozenset)) else v) for k, v in storm.BIG.items()}}
+    if conform:
+        part = traces[:4000]
+        acc = conformance(check, 'big', storm.BIG, part)
+        if acc is not None:
+            info['traces_checked_against_operational_spec'] = len(part)
+            info['accepted_as_behaviour_of_USim'] = len(acc)
+            info['not_explained'] = [progs[i] for i in range(len(part)) if i not in acc][:5]
+            check.drift += len(part) - len(acc)
+    check.extra['random_programs'] = info
+    check.programs += n
+    return [(p, t, storm.BIG['NRoots'], world) for p, t in zip(progs, traces)]
 
 
 def run_many(progs, nroots, procs=16, starts=None):
@@ -134,3 +168,30 @@ def judge_kernel(check, runs, prefix):
     for idx, clause, pos in check.validate('ObsK', [r[1] for r in runs], label='kernel'):
         if clause.startswith(prefix):
             check.report(clause, runs[idx][0], runs[idx][1], pos, extra={'NRoots': 0})
+
+
+def conformance(check, label, consts, traces, timeout=3000):
+    """TLC validates recorded traces against the OPERATIONAL spec (USimT): returns the set of accepted indices"""
+    import json
+    import os
+    import re
+    import tlc
+    path = os.path.join(check.tmp, 'conf_%s.json' % label)
+    clean = [[{k: v for k, v in e.items() if k not in ('due', 'never', 'late', 'neg')}
+              for e in t if e['e'] not in ('init', 'fin')] for t in traces]
+    with open(path, 'w') as fh:
+        json.dump({'traces': clean}, fh)
+    cfg = os.path.join(check.tmp, 'conf_%s.cfg' % label)
+    tlc.write_cfg(cfg, 'SpecT', consts, invariants=['Accepted'])
+    r = tlc.run_tlc('USimT', cfg, env={'TRACE_FILE': path}, timeout=timeout, workers=16)
+    os.unlink(path)
+    if r.errors:
+        check.notes.append('conformance run %s failed: %s' % (label, r.errors[:2]))
+        return None
+    accepted = set(int(m.group(1)) - 1 for m in re.finditer(r'<<"A", (\d+)>>', r.out))
+    check.tlc_runs.append({'label': 'conformance:' + label, 'module': 'USimT', 'traces': len(traces),
+                           'accepted_by_operational_spec': len(accepted), 'distinct': r.distinct,
+                           'generated': r.generated, 'wall_s': round(r.wall, 1)})
+    check.states += r.distinct
+    check.transitions += r.generated
+    return accepted
